@@ -174,7 +174,7 @@ def step_oracle(case) -> core.CaseResult:
 
 @st.composite
 def history_cases(draw, max_steps):
-    scn = draw(sim.scenario(max_steps=max_steps, reverse=False, layouts=("sparse", "dense"), numrec=(0, 0, 2),
+    scn = draw(sim.scenario(max_steps=max_steps, reverse=False, layouts=("sparse", "dense"), numrec=(0, 0, 0, 6),
                             masks=("islands", "coast", "random", "none"), pvars=[], lonlat=(False,),
                             ref_kinds=("none",)))
     scn["diffusion"] = draw(st.sampled_from([0.0, 0.0, 5.0, 50.0]))
